@@ -114,13 +114,14 @@ PROPS = {
                       "getCachedClient/generateClient breaker wiring.",
     },
     "C03": {
+        "generated": ["gopending2v"],
         "kcheck": True,
         "onep": True,
         "rule": "exhaustive response permutations for k<=4 (thorough k<=5) calls mixing Go/Call/SendRaw, with pushes carrying a pending "
                 "call's seq, unknown seqs and duplicates inserted, plus 350 (thorough 8000) random schedules over registration / encode / "
                 "write / cancel / frames / reader termination / Close, each forced step by step on the real client; distinct = distinct "
                 "model-input line; non-trivial = at least 2 calls or 4 events",
-        "theorems": ["C03_completed_by_own_response", "C03_strays_and_pushes_are_inert", "C03_pushes_in_order", "C03_invariant"],
+        "theorems": ["C03_completed_by_own_response", "C03_strays_and_pushes_are_inert", "C03_pushes_in_order", "C03_invariant", "C03_a_registered_call_keeps_its_number_to_itself"],
         "assumptions": ["sequentially consistent interleavings at the granularity of the client's own critical sections (client.mutex, one "
                         "Conn.Write per frame, the single reader goroutine); weak-memory effects are not modelled",
                         "Done channels have room for every call that shares them (the documented obligation of Go)",
